@@ -77,6 +77,16 @@ class Draw:
 
 ONE = S("(Sc.ofNat 1)")
 
+# per-mode arrays of the runners (selected by the walker's assignment)
+PERMODE = {
+    "self.means": lambda: V("mu"),
+    "self.degrees_of_freedom": lambda: S("nu", {"nu"}),
+    "self.sigmas": lambda: S("sigma", {"sigma"}),
+    "self.chol_covs": lambda: M("chol"),
+    "self.inv_covs": lambda: M("invcov"),
+}
+IDX_LOG = []
+
 
 def _bin(op, a, b):
     return S(f"(Sc.{op} {a.lean} {b.lean})", a.fv | b.fv)
@@ -132,12 +142,21 @@ class Ev:
         self.n_gamma = 0
         self.s_of_g = None
         self.n_randn = 0
+        self.expect_idx = "walker" if where.endswith("._propose") else (
+            "allWalkers" if where.endswith("._compute_acceptance_factor") else None)
 
     def fail(self, node, why):
         raise Unavailable(f"{self.where} line {getattr(node, 'lineno', '?')}: {why}: `{_src(node)[:80]}`")
 
     def ev(self, node):
         text = _src(node)
+        if self.expect_idx and isinstance(node, ast.Subscript) and _src(node.value) in PERMODE:
+            # a per-mode array: record WHICH index expression selects the mode (table `modeIndexTable`); the value is that
+            # mode's statistic whatever the index is — a wrong index shows up in the table, not as a silent acceptance
+            idx = _src(node.slice)
+            found = {"self.assignments[k]": "walker", "self.assignments": "allWalkers"}.get(idx, "other")
+            IDX_LOG.append((self.expect_idx, f"{self.where}: {_src(node.value)}[{idx}]", found))
+            return PERMODE[_src(node.value)]()
         if text in self.leaves:
             return self.leaves[text]
         if isinstance(node, ast.Name):
@@ -602,6 +621,12 @@ inductive Stage
   | update | adapt | progress | converge
   deriving DecidableEq, Repr
 
+/-- which index expression selects the mode of a per-mode array: `self.assignments[k]` (walker), `self.assignments`
+    (allWalkers, vectorised), anything else -/
+inductive ModeIdx
+  | walker | allWalkers | other
+  deriving DecidableEq, Repr
+
 /-- statements of a `_propose`: [gamma draw,] normal draw, fold (`apply_boundary_conditions`), return — or, in the OLD
     redraw shape, `loop` with draw, fold, `checkReturn` (`if check_bounds(...): return`) inside -/
 inductive PStage
@@ -617,6 +642,7 @@ def _def(name, params, body, doc):
 
 
 def _emit(tree):
+    del IDX_LOG[:]
     # ---- tpCN proposal
     tp = _find_method(tree, "TPCNRunner", "_propose")
     if [a.arg for a in tp.args.args] != ["self", "k"]:
@@ -680,7 +706,7 @@ def _emit(tree):
     return dict(gammaShape=shape.lean, gammaScale=scale.lean, sFromGamma=sval.lean, tpcnMuCoef=co["mu"].lean,
                 tpcnDiffCoef=co["diffu"].lean, tpcnNoiseScale=co["Lz"].lean, tpcnLogFactor=factor.lean,
                 rwmUCoef=rco["u"].lean, rwmNoiseScale=rco["Lz"].lean, rwmLogFactor=rfactor.lean, acceptProb=alpha.lean, alphaOutOfBounds=oob,
-                tpcnAdapt=tad.lean, rwmAdapt=rad.lean, stepOrder=order, tpcnProposeShape=tshape, rwmProposeShape=rshape)
+                tpcnAdapt=tad.lean, rwmAdapt=rad.lean, modeIndexTable=list(IDX_LOG), stepOrder=order, tpcnProposeShape=tshape, rwmProposeShape=rshape)
 
 
 # The reviewed expressions of the pinned tree.  Used ONLY when the current source cannot be parsed (status `unavailable`):
@@ -703,6 +729,23 @@ REFERENCE = dict(
     alphaOutOfBounds="(Sc.ofNat 0)",
     tpcnAdapt=f"(Sc.min (Sc.max {_RAW} (Sc.ofNat 0)) (Sc.min sigma0 (Sc.lit 99 2)))",
     rwmAdapt=_RAW,
+    modeIndexTable=[
+        ("walker", "TPCNRunner._propose: self.means[self.assignments[k]]", "walker"),
+        ("walker", "TPCNRunner._propose: self.chol_covs[self.assignments[k]]", "walker"),
+        ("walker", "TPCNRunner._propose: self.sigmas[self.assignments[k]]", "walker"),
+        ("walker", "TPCNRunner._propose: self.inv_covs[self.assignments[k]]", "walker"),
+        ("walker", "TPCNRunner._propose: self.degrees_of_freedom[self.assignments[k]]", "walker"),
+        ("walker", "TPCNRunner._propose: self.degrees_of_freedom[self.assignments[k]]", "walker"),
+        ("allWalkers", "TPCNRunner._compute_acceptance_factor: self.means[self.assignments]", "allWalkers"),
+        ("allWalkers", "TPCNRunner._compute_acceptance_factor: self.inv_covs[self.assignments]", "allWalkers"),
+        ("allWalkers", "TPCNRunner._compute_acceptance_factor: self.degrees_of_freedom[self.assignments]", "allWalkers"),
+        ("allWalkers", "TPCNRunner._compute_acceptance_factor: self.degrees_of_freedom[self.assignments]", "allWalkers"),
+        ("allWalkers", "TPCNRunner._compute_acceptance_factor: self.inv_covs[self.assignments]", "allWalkers"),
+        ("allWalkers", "TPCNRunner._compute_acceptance_factor: self.degrees_of_freedom[self.assignments]", "allWalkers"),
+        ("allWalkers", "TPCNRunner._compute_acceptance_factor: self.degrees_of_freedom[self.assignments]", "allWalkers"),
+        ("walker", "RWMRunner._propose: self.chol_covs[self.assignments[k]]", "walker"),
+        ("walker", "RWMRunner._propose: self.sigmas[self.assignments[k]]", "walker"),
+    ],
     stepOrder=["iter", "propose", "boundsCheck", "keepCurrent", "transform", "evaluate", "factor", "alpha", "zeroOutOfBounds",
                "uniform", "accept", "update", "adapt", "progress", "converge"],
     tpcnProposeShape=["gamma", "draw", "fold", "ret"],
@@ -730,6 +773,9 @@ def _render(v, note=""):
     out.append("/-- BaseMCMCRunner.run: `mask_accept = u_rand < alpha` -/\ndef acceptDecision (r alpha : α) : Bool :=\n  Sc.lt r alpha\n")
     out.append(_def("tpcnAdapt", ["sigma", "iter", "acc", "sigma0"], v["tpcnAdapt"], "TPCNRunner._adapt_sigma: new sigma of the cluster"))
     out.append(_def("rwmAdapt", ["sigma", "iter", "acc", "sigma0"], v["rwmAdapt"], "RWMRunner._adapt_sigma: new sigma of the cluster"))
+    out.append("/-- (expected, site, found): the index expression of every per-mode array in `_propose` / `_compute_acceptance_factor` -/\n"
+               "def modeIndexTable : List (ModeIdx × String × ModeIdx) :=\n  ["
+               + ",\n   ".join(f'(.{e}, "{t}", .{f})' for e, t, f in v["modeIndexTable"]) + "]\n")
     out.append("/-- statement order of one step of `BaseMCMCRunner.run` -/\ndef stepOrder : List Stage :=\n  ["
                + ", ".join("." + s for s in v["stepOrder"]) + "]\n")
     out.append("/-- statement shape of `TPCNRunner._propose` -/\ndef tpcnProposeShape : List PStage :=\n  ["
